@@ -262,6 +262,10 @@ pub fn configs(tier: Tier) -> Vec<InCfg> {
             // open until PUBREL (seeded change C11_r5 released the id for every code other than 0x00)
             variants.push((a, if tier == Tier::Quick { 3 } else { 4 }, vec![], vec![GateOutcome::Ok, GateOutcome::Nack(0x10)]));
         }
+        // the DUP flag changes nothing: a second PUBLISH with an in-use id is refused whether or not it claims to be a
+        // re-delivery (seeded change C03_r11 confirmed a DUP QoS 2 publish with PUBREC Success while the first one's
+        // handler was still running)
+        variants.push((vec![q(2, 1), T::PubDup { qos: 2, id: 1 }, q(1, 1), T::PubDup { qos: 1, id: 1 }, T::PubRel(1)], if tier == Tier::Quick { 3 } else { 4 }, vec![], vec![GateOutcome::Ok]));
         // a duplicate whose payload arrives in pieces: v5 refuses it and carries on, v3 ends the connection
         variants.push((vec![q(1, 1), T::PubSplit { qos: 1, id: 1, len: 6 }, q(1, 2)], if tier == Tier::Quick { 3 } else { 4 }, vec![], vec![GateOutcome::Ok]));
         // clients: the same histories with the topic router in front of the handler (its own acknowledgement
